@@ -5,6 +5,8 @@ import (
 	"strings"
 
 	"github.com/Trendyol/go-dcp/config"
+	"github.com/Trendyol/go-dcp/membership"
+	"github.com/asaskevich/EventBus"
 	"github.com/Trendyol/go-dcp/helpers"
 	"github.com/Trendyol/go-dcp/stream"
 )
@@ -64,6 +66,38 @@ func realMember(n, t, m int) (res string) {
 	return fmt.Sprintf("%d %d", vbs[0], vbs[len(vbs)-1])
 }
 
+// one long-lived VBucketDiscovery (dynamic membership fed through the bus, as the API / HA variants do)
+// asked again after every membership change: the range must be a function of (N, T, m) only
+func realMemberSeq(n int, steps [][2]int) (res string) {
+	defer func() {
+		if r := recover(); r != nil {
+			res = "panic"
+		}
+	}()
+	bus := EventBus.New()
+	cfg := &config.Dcp{}
+	cfg.Dcp.Group.Membership.Type = "dynamic"
+	d := stream.NewVBucketDiscovery(nil, cfg, n, bus)
+	var out []string
+	for _, st := range steps {
+		bus.Publish(helpers.MembershipChangedBusEventName, &membership.Model{MemberNumber: st[1], TotalMembers: st[0]})
+		bus.WaitAsync()
+		vbs := d.Get()
+		ok := true
+		for k := 1; k < len(vbs); k++ {
+			if vbs[k] != vbs[k-1]+1 {
+				ok = false
+			}
+		}
+		if !ok || len(vbs) == 0 {
+			out = append(out, "bad")
+			continue
+		}
+		out = append(out, fmt.Sprintf("%d-%d", vbs[0], vbs[len(vbs)-1]))
+	}
+	return strings.Join(out, " ")
+}
+
 func runC09(c *Ctx) {
 	e := c.E
 	one := func(n, t int) {
@@ -98,6 +132,31 @@ func runC09(c *Ctx) {
 			mem(n, t, 1+c.R.Intn(t))
 		}
 	}
+	// membership histories on one discovery instance: grow, shrink, repeat (statefulness would show here)
+	for i := 0; i < c.N(400, 4000); i++ {
+		n := []int{8, 64, 128, 1024, 1 + c.R.Intn(1024)}[c.R.Intn(5)]
+		k := 2 + c.R.Intn(5)
+		var steps [][2]int
+		var sb []string
+		t := 1 + c.R.Intn(minI(n, 16))
+		for j := 0; j < k; j++ {
+			switch c.R.Intn(4) {
+			case 0:
+				if t > 1 {
+					t -= 1 + c.R.Intn(t-1)
+				}
+			case 1:
+				t = minI(n, t+1+c.R.Intn(4))
+			case 2:
+				t = 1 + c.R.Intn(minI(n, 64))
+			}
+			m := 1 + c.R.Intn(t)
+			steps = append(steps, [2]int{t, m})
+			sb = append(sb, fmt.Sprintf("%d:%d", t, m))
+		}
+		e.Line(fmt.Sprintf("member-seq %d %s", n, strings.Join(sb, ",")), realMemberSeq(n, steps))
+		e.EndCase(true, "member-seq")
+	}
 	c.Extra["exhaustive_chunk_upto_N"] = limit
 	c.Extra["exhaustive_member_upto_N"] = mlimit
 	// random beyond (up to the uint16 id space)
@@ -110,4 +169,11 @@ func runC09(c *Ctx) {
 		one(n, t)
 		mem(n, t, 1+c.R.Intn(t))
 	}
+}
+
+func minI(a, b int) int {
+	if a < b {
+		return a
+	}
+	return b
 }
